@@ -5,7 +5,7 @@ SPEC = dict(
     proof_files=['Proofs/SensorFloat.v', 'Proofs/Sensor.v', 'Proofs/LeafTie.v', 'Drv/Sensor.v'],
     tie_vo=['Proofs/LeafTie.vo'],
     drivers=[dict(name='sensor', drv_mod='Drv.Sensor', drv_file='Drv/Sensor.v', shard=60,
-                  args={'quick': ['n=600', 'hostile=60'], 'thorough': ['n=8000', 'hostile=800']},
+                  args={'quick': ['n=600', 'hostile=60'], 'thorough': ['n=6000', 'hostile=600']},
                   timeout={'quick': 600, 'thorough': 3000})],
     rule='seeded random cases: backend in {hwmon, file, cmd} (real HwmonSensor/FileSensor/CmdSensor on temp files / root-owned 0755 scripts), '
          'window n in 1..50 (hostile stream also 1e6 and 2^40), initial average from the real initializeSensors (valid or failing first read) '
@@ -30,18 +30,20 @@ SPEC = dict(
         '(ClassicalDedekindReals.sig_forall_dec, sig_not_dec, Classical_Prop.classic, functional_extensionality_dep) wherever Flocq B2R lemmas are used; '
         'the exact list per theorem is in print_assumptions',
         'hand-written model of sensors/{hwmon,file,cmd}.go GetValue, monitor.go updateSensor and backend.go seeding: agreement with the code observed on the generated cases',
-        'the float contraction factor (1-1/n) with rounding slack is judged on the implementation by the observer contractsb (exact integer arithmetic in units of 2^-1074) but proved only for the idealisation over R',
+        'observer contractsb (exact integer arithmetic on Prim2SF mantissa/exponent, units of 2^-1074) states the same inequality as theorem C08_converges (over Flocq B2R); their agreement is by inspection',
     ],
-    partial='C08_converges_partial: for binary64 it is proved that one poll moves the average toward the reading without overshoot (window >= 2, guard); '
-            'the geometric factor (1-1/n) is proved for the exact-arithmetic idealisation only (C08_converges_ideal) and checked with an explicit slack '
-            '2^-51*max(|x|,|avg|)+2^-1074 on every observed poll. Timeouts of command sensors run only in the thorough tier. Parsing is exercised, not modelled.',
+    partial='C08_converges proves the binary64 contraction |x-avg\'| <= (1-1/n)|x-avg| + 2^-50(|avg|+|x|) + 2^-1074 per valid poll for windows '
+            '2 <= n < 2^53 inside the guard (window 1: C08_window_one, the average is the reading); it is stated over the real values R_of of the '
+            'floats, and the observer contractsb checks the same inequality in exact integer arithmetic (units of 2^-1074) on every observed poll - '
+            'the equality of the two readings of a float (Flocq B2R vs Prim2SF mantissa/exponent) is by inspection, not proved. C08_converges_ideal is '
+            'about the exact-arithmetic idealisation only. Timeouts of command sensors run only in the thorough tier. Parsing is exercised, not modelled.',
     finding_codes={1: 'D20'},
     finding_text={'D20': 'UpdateSimpleMovingAvg leaves the hull of the readings outside the magnitude guard: window 1 with values that are not integers below 2^52 '
                          '(upd(-2^53,1,3) = 4; 1-ulp overshoot on decimal readings), overflow to Inf then NaN at |v| > 2^1021 (+-1e308)'},
     level_text='Theorems C08_fault_skips (all backends, all windows, all averages), C08_not_poisoned and C08_hull (every finite reading sequence, every '
                'fault placement, every window 1 <= n < 2^63, induction over the sequence; binary64 arithmetic via Flocq: rounding monotonicity, exact '
                'small sums, DN/UP bracketing) hold for the model of the repaired code; the unguarded hull is refuted by computed witnesses (D20). '
-               'The model is tied to the Go code by the reflexivity lemma on the regenerated UpdateSimpleMovingAvg and by a differential run of real '
+               'C08_converges gives the geometric factor (1-1/n) with an explicit rounding slack for the binary64 arithmetic (Flocq error model). The model is tied to the Go code by the reflexivity lemma on the regenerated UpdateSimpleMovingAvg and by a differential run of real '
                'HwmonSensor/FileSensor/CmdSensor objects through the real initializeSensors and updateSensor with bit-exact comparison of every average.',
     level_note='trusted: Coq kernel + FloatAxioms/Flocq/classical reals; hand-written model of GetValue/updateSensor/seeding, agreement observed on generated cases; parsers and os/exec not modelled',
     design_ref='DESIGN.md section 5 C08',
